@@ -1507,6 +1507,14 @@ impl Analyzable for Array
 				let element = element.analyze(typer);
 				let element_type = element.value_type();
 				typer.contextual_type = element_type.clone();
+				// An element that is already poisoned does not tell us anything
+				// about the element type; in particular it must not poison the
+				// element type during the preliminary passes over a function
+				// body, or the error that caused it is never reported.
+				if let Some(Err(_poison)) = &element_type
+				{
+					return element;
+				}
 				match typer.put_symbol(&name, element_type)
 				{
 					Ok(()) => element,
